@@ -508,7 +508,7 @@ def main(argv=None):
         print("not reproduced")
         return 0
     quick = a.tier == "quick"
-    ev = common.Evidence(PROP, a.tier, a.seed, "fault_enumeration", "(sweep) PASV/EPSV x pool size x bind outcome of the first port, session cut by RST/FIN or Server.close() at every event-loop step between delivery of the PASV line and its reply on a zero-latency network; (random) seeded histories of 1..4 sessions with PASV/EPSV/transfer/QUIT/vanish/'PASV and close at once' x pool sizes 0..4 x bind plans (EADDRINUSE, EACCES, EADDRNOTAVAIL, foreign listeners released later); invariant checked after every network event; non-trivial = at least one passive port granted or exhaustion answered; distinct = distinct run digests")
+    ev = common.Evidence(PROP, a.tier, a.seed, "fault_enumeration", "(sweep) PASV/EPSV x pool size x bind outcome of the first port, session cut by RST/FIN or Server.close() at every event-loop step between delivery of the PASV line and its reply on a zero-latency network; (random) seeded histories of 1..4 sessions with PASV/EPSV/transfer/QUIT/vanish/'PASV and close at once' x pool sizes 0..4 x bind plans (EADDRINUSE, EACCES, EADDRNOTAVAIL, foreign listeners released later); invariant checked after every network event; non-trivial = at least one passive port granted or exhaustion answered; distinct = distinct run digests Sessions also send pipelined PASV/EPSV bursts.")
     rep = common.Reporter(PROP, ev)
     deadline = time.time() + (a.budget or (60 if quick else 1200))
     with common.Pool() as pool:
